@@ -299,5 +299,12 @@ def rule_g(ctx):
                 problem or 'the remaining byte count shrinks by at least 1 on all %d iteration paths' % n)
 
 
+def rule_h(ctx):
+    """A correctly delimited but undecodable frame produces no frame or one marker: what the decoder hands back on a
+    parse failure (shared C12.a; c12 imports this module, hence the late import)."""
+    from .c12 import rule_a as c12a
+    c12a(ctx)
+
+
 RULES = [('C04.a', rule_a), ('C04.b', rule_b), ('C04.c', rule_c), ('C04.d', rule_d), ('C04.e', rule_e),
-         ('C04.f', rule_f), ('C12.e', rule_g)]
+         ('C04.f', rule_f), ('C12.e', rule_g), ('C12.a', rule_h)]
